@@ -181,7 +181,7 @@ Inv_C04 == Unexplained({"C04_list", "C04_count", "C04_owned", "C04_status"}) = {
 Inv_C05 == Unexplained({"C05_noblock", "C05_readnow", "C05_bound"}) = {}
 Inv_C06 == Unexplained({"C06_reply", "C06_status", "C06_all"}) = {}
 Inv_C08 == Unexplained({"C08_done"}) = {}
-Inv_C09 == Unexplained({"C09_spawn", "C09_reap", "C09_live", "C09_startstop", "C09_status"}) = {}
+Inv_C09 == Unexplained({"C09_spawn", "C09_reap", "C09_live", "C09_killev", "C09_startstop", "C09_status"}) = {}
 Inv_C12 == Unexplained({"C12_conv", "C12_keep"}) = {}
 Inv_C10 == Unexplained({"C10_wedge", "C10_refuse", "C10_accept", "C10_held"}) = {}
 Inv_C11 == Unexplained({"C11_unchanged", "C10_refuse"}) = {}
